@@ -84,6 +84,15 @@ fn main() {
         }
         return;
     }
+    if prop == "C13-pt" {
+        silence_panics();
+        let g = |i: usize| args.get(i).cloned().unwrap_or_default();
+        std::process::exit(deser::pt_child(g(2).parse().unwrap_or(1), g(3).parse().unwrap_or(0), g(4).parse().unwrap_or(10), &g(5), &g(6)));
+    }
+    if prop == "C13-one" {
+        silence_panics();
+        std::process::exit(deser::one_child(&args.get(2).cloned().unwrap_or_default()));
+    }
     if prop == "C17-free" {
         // child process of the C17 free-running tier: gv C17-free <flavour> <shape idx> <iterations>
         silence_panics();
